@@ -1272,4 +1272,498 @@ theorem roundtrip_pairs (ext : Bool) : ∀ (kvs : List (MVal × MVal)) (d : Nat)
     simp only [e1, e2, e3]
 end
 
+
+/-! ## What the depth counter accepts -/
+
+/-- "needs at most counter `d`": what the depth counter checks. -/
+def MVal.Within (v : MVal) (d : Nat) : Prop := v.nesting < d ∨ v.nesting = 0
+
+theorem seqWith_all {f : List Nat → Except DErr (MVal × List Nat)} {P : MVal → Prop}
+    (hf : ∀ bs v r, f bs = .ok (v, r) → P v) :
+    ∀ n bs vs r, seqWith f n bs = .ok (vs, r) → ∀ v ∈ vs, P v := by
+  intro n
+  induction n with
+  | zero =>
+    intro bs vs r h
+    simp only [seqWith] at h
+    injection h with h; injection h with h1 _; subst h1; simp
+  | succ n ih =>
+    intro bs vs r h
+    simp only [seqWith] at h
+    split at h
+    · cases h
+    · rename_i v r1 h1
+      split at h
+      · cases h
+      · rename_i vs' r2 h2
+        injection h with h; injection h with h3 _; subst h3
+        intro x hx
+        rcases List.mem_cons.mp hx with rfl | hx
+        · exact hf _ _ _ h1
+        · exact ih _ _ _ h2 x hx
+
+theorem pairsWith_all {f : List Nat → Except DErr (MVal × List Nat)} {P : MVal → Prop}
+    (hf : ∀ bs v r, f bs = .ok (v, r) → P v) :
+    ∀ n bs kvs r, pairsWith f n bs = .ok (kvs, r) → ∀ kv ∈ kvs, P kv.1 ∧ P kv.2 := by
+  intro n
+  induction n with
+  | zero =>
+    intro bs vs r h
+    simp only [pairsWith] at h
+    injection h with h; injection h with h1 _; subst h1; simp
+  | succ n ih =>
+    intro bs vs r h
+    simp only [pairsWith] at h
+    split at h
+    · cases h
+    · rename_i k r1 h1
+      split at h
+      · cases h
+      · rename_i v r2 h2
+        split at h
+        · cases h
+        · rename_i kvs r3 h3
+          injection h with h; injection h with h4 _; subst h4
+          intro x hx
+          rcases List.mem_cons.mp hx with rfl | hx
+          · exact ⟨hf _ _ _ h1, hf _ _ _ h2⟩
+          · exact ih _ _ _ h3 x hx
+
+theorem nestingList_le {xs : List MVal} {m : Nat} (h : ∀ v ∈ xs, v.nesting ≤ m) :
+    nestingList xs ≤ m := by
+  induction xs with
+  | nil => simp [nestingList]
+  | cons x xs ih =>
+    simp only [nestingList]
+    have := h x (by simp)
+    have := ih (fun v hv => h v (by simp [hv]))
+    omega
+
+theorem nestingPairs_le {kvs : List (MVal × MVal)} {m : Nat}
+    (h : ∀ kv ∈ kvs, kv.1.nesting ≤ m ∧ kv.2.nesting ≤ m) : nestingPairs kvs ≤ m := by
+  induction kvs with
+  | nil => simp [nestingPairs]
+  | cons x xs ih =>
+    obtain ⟨k, v⟩ := x
+    simp only [nestingPairs]
+    have h1 := h (k, v) (by simp)
+    simp only at h1
+    have := ih (fun kv hkv => h kv (by simp [hkv]))
+    omega
+
+theorem le_nestingList {xs : List MVal} {v : MVal} (h : v ∈ xs) : v.nesting ≤ nestingList xs := by
+  induction xs with
+  | nil => cases h
+  | cons x xs ih =>
+    simp only [nestingList]
+    rcases List.mem_cons.mp h with rfl | h
+    · omega
+    · have := ih h; omega
+
+theorem le_nestingPairs {kvs : List (MVal × MVal)} {kv : MVal × MVal} (h : kv ∈ kvs) :
+    kv.1.nesting ≤ nestingPairs kvs ∧ kv.2.nesting ≤ nestingPairs kvs := by
+  induction kvs with
+  | nil => cases h
+  | cons x xs ih =>
+    obtain ⟨k, v⟩ := x
+    simp only [nestingPairs]
+    rcases List.mem_cons.mp h with rfl | h
+    · simp only; omega
+    · have := ih h; omega
+
+theorem layout_scalar_flat {m : Marker} {v : MVal} (h : layout m = .imm (.scalar v)) :
+    v.nesting = 0 := by
+  cases m <;> simp only [layout] at h <;> cases h <;> rfl
+
+theorem mkData_flat (kind : DataKind) (k : Nat) (x : List Nat) : (mkData kind k x).nesting = 0 := by
+  cases kind
+  · rfl
+  · simp only [mkData]; split <;> rfl
+  · rfl
+  · rfl
+
+theorem mkHdr_ne_scalar (kind : LenKind) (n : Nat) (v : MVal) : mkHdr kind n ≠ .scalar v := by
+  cases kind <;> simp [mkHdr]
+
+/-- Whatever the decoder accepts with counter `d` nests within `d`: for every
+byte string, every spelling, every shape. -/
+theorem decode_within (ext : Bool) (d : Nat) :
+    ∀ bs v rest, decodeG ext d bs = .ok (v, rest) → v.Within d := by
+  induction d using Nat.strongRecOn with
+  | _ d ih =>
+    intro bs v rest h
+    unfold decodeG at h
+    split at h
+    · cases h
+    · rename_i b t
+      split at h
+      · cases h
+      · -- scalar: comes from `layout`, never a collection
+        rename_i v' r hh
+        injection h with h; injection h with h1 _; subst h1
+        right
+        unfold header at hh
+        split at hh
+        · cases hh
+        · rename_i h' hl
+          injection hh with hh; injection hh with h1 _
+          subst h1
+          exact layout_scalar_flat hl
+        · split at hh
+          · cases hh
+          · injection hh with hh; injection hh with h1 _
+            cases h1
+            exact mkData_flat _ _ _
+        · split at hh
+          · cases hh
+          · injection hh with hh; injection hh with h1 _
+            exact absurd h1 (mkHdr_ne_scalar _ _ _)
+      · split at h
+        · cases h
+        · injection h with h; injection h with h1 _; subst h1
+          right; split <;> rfl
+      · split at h
+        · cases h
+        · injection h with h; injection h with h1 _; subst h1
+          right; rfl
+      · split at h
+        · cases h
+        · rename_i d'
+          split at h
+          · cases h
+          · rename_i hd
+            split at h
+            · split at h
+              · cases h
+              · split at h
+                · cases h
+                · injection h with h; injection h with h1 _; subst h1
+                  left; simp only [MVal.nesting]; omega
+            · cases h
+      · split at h
+        · cases h
+        · rename_i d'
+          split at h
+          · cases h
+          · rename_i hd
+            split at h
+            · cases h
+            · rename_i vs r' hs
+              injection h with h; injection h with h1 _; subst h1
+              left
+              simp only [MVal.nesting]
+              have hall := seqWith_all (P := fun v => v.nesting ≤ d' - 1)
+                (fun bs v r hv => by
+                  have := ih d' (by omega) bs v r hv
+                  unfold MVal.Within at this; omega) _ _ _ _ hs
+              have := nestingList_le hall
+              omega
+      · split at h
+        · cases h
+        · rename_i d'
+          split at h
+          · cases h
+          · rename_i hd
+            split at h
+            · cases h
+            · rename_i kvs r' hs
+              injection h with h; injection h with h1 _; subst h1
+              left
+              simp only [MVal.nesting]
+              have hall := pairsWith_all (P := fun v => v.nesting ≤ d' - 1)
+                (fun bs v r hv => by
+                  have := ih d' (by omega) bs v r hv
+                  unfold MVal.Within at this; omega) _ _ _ _ hs
+              have := nestingPairs_le hall
+              omega
+
+
+
+theorem seqWith_transfer {f g : List Nat → Except DErr (MVal × List Nat)} {m : Nat}
+    (hfg : ∀ bs v r, f bs = .ok (v, r) → v.nesting ≤ m → g bs = .ok (v, r)) :
+    ∀ n bs vs r, seqWith f n bs = .ok (vs, r) → nestingList vs ≤ m →
+      seqWith g n bs = .ok (vs, r) := by
+  intro n
+  induction n with
+  | zero => intro bs vs r h _; simpa [seqWith] using h
+  | succ n ih =>
+    intro bs vs r h hm
+    simp only [seqWith] at h
+    split at h
+    · cases h
+    · rename_i v r1 h1
+      split at h
+      · cases h
+      · rename_i vs' r2 h2
+        injection h with h; injection h with h3 h4; subst h3; subst h4
+        simp only [nestingList] at hm
+        simp only [seqWith, hfg _ _ _ h1 (by omega), ih _ _ _ h2 (by omega)]
+
+theorem pairsWith_transfer {f g : List Nat → Except DErr (MVal × List Nat)} {m : Nat}
+    (hfg : ∀ bs v r, f bs = .ok (v, r) → v.nesting ≤ m → g bs = .ok (v, r)) :
+    ∀ n bs kvs r, pairsWith f n bs = .ok (kvs, r) → nestingPairs kvs ≤ m →
+      pairsWith g n bs = .ok (kvs, r) := by
+  intro n
+  induction n with
+  | zero => intro bs vs r h _; simpa [pairsWith] using h
+  | succ n ih =>
+    intro bs vs r h hm
+    simp only [pairsWith] at h
+    split at h
+    · cases h
+    · rename_i k r1 h1
+      split at h
+      · cases h
+      · rename_i v r2 h2
+        split at h
+        · cases h
+        · rename_i kvs r3 h3
+          injection h with h; injection h with h4 h5; subst h4; subst h5
+          simp only [nestingPairs] at hm
+          simp only [pairsWith, hfg _ _ _ h1 (by omega), hfg _ _ _ h2 (by omega),
+            ih _ _ _ h3 (by omega)]
+
+/-- The result of a successful decode does not depend on the depth counter: any
+counter that the value nests within gives the same value and the same rest. -/
+theorem decode_depth_irrelevant (ext : Bool) (d' : Nat) :
+    ∀ d bs v rest, decodeG ext d' bs = .ok (v, rest) → v.Within d →
+      decodeG ext d bs = .ok (v, rest) := by
+  induction d' using Nat.strongRecOn with
+  | _ d' ih =>
+    intro d bs v rest h hw
+    unfold decodeG at h
+    split at h
+    · cases h
+    · rename_i b t
+      split at h
+      · cases h
+      · rename_i v' r hh
+        unfold decodeG; simp only [hh]; exact h
+      · rename_i len r hh
+        unfold decodeG; simp only [hh]; exact h
+      · rename_i len r hh
+        unfold decodeG; simp only [hh]; exact h
+      · rename_i len r hh
+        split at h
+        · cases h
+        · rename_i e'
+          split at h
+          · cases h
+          · rename_i hd
+            split at h
+            · rename_i hext
+              split at h
+              · cases h
+              · rename_i ty r1 hr1
+                split at h
+                · cases h
+                · rename_i s r2 hr2
+                  injection h with h; injection h with h1 h2; subst h1; subst h2
+                  have hn : 1 < d := by
+                    unfold MVal.Within at hw; simp only [MVal.nesting] at hw; omega
+                  obtain ⟨e, rfl⟩ : ∃ e, d = e + 1 := ⟨d - 1, by omega⟩
+                  unfold decodeG
+                  simp only [hh, show e ≠ 0 by omega, hext, hr1, hr2, ↓reduceIte]
+            · cases h
+      · rename_i count r hh
+        split at h
+        · cases h
+        · rename_i e'
+          split at h
+          · cases h
+          · rename_i hd
+            split at h
+            · cases h
+            · rename_i vs r' hs
+              injection h with h; injection h with h1 h2; subst h1; subst h2
+              have hn : 1 + nestingList vs < d := by
+                unfold MVal.Within at hw; simp only [MVal.nesting] at hw; omega
+              obtain ⟨e, rfl⟩ : ∃ e, d = e + 1 := ⟨d - 1, by omega⟩
+              have hs' := seqWith_transfer (g := decodeG ext e) (m := e - 1)
+                (fun bs v r hv hm => ih e' (by omega) e bs v r hv (by left; omega)) _ _ _ _ hs
+                (by omega)
+              unfold decodeG
+              simp only [hh, show e ≠ 0 by omega, hs', ↓reduceIte]
+      · rename_i count r hh
+        split at h
+        · cases h
+        · rename_i e'
+          split at h
+          · cases h
+          · rename_i hd
+            split at h
+            · cases h
+            · rename_i kvs r' hs
+              injection h with h; injection h with h1 h2; subst h1; subst h2
+              have hn : 1 + nestingPairs kvs < d := by
+                unfold MVal.Within at hw; simp only [MVal.nesting] at hw; omega
+              obtain ⟨e, rfl⟩ : ∃ e, d = e + 1 := ⟨d - 1, by omega⟩
+              have hs' := pairsWith_transfer (g := decodeG ext e) (m := e - 1)
+                (fun bs v r hv hm => ih e' (by omega) e bs v r hv (by left; omega)) _ _ _ _ hs
+                (by omega)
+              unfold decodeG
+              simp only [hh, show e ≠ 0 by omega, hs', ↓reduceIte]
+
+
+
+/-! ## Acceptance and rejection at a depth limit, for any spelling -/
+
+theorem within_of_lt {v : MVal} {d : Nat} (h : v.nesting < d) : v.Within d := Or.inl h
+
+/-- If `bs` is a spelling of `v` (it decodes to `v` under some depth counter)
+and `v` nests within `D`, then with limit `D` the decoder, the calculator and
+both loops accept it. -/
+theorem accept_within (ext : Bool) (D : Nat) (hD : 1 ≤ D) {bs : List Nat} {v : MVal} {d' : Nat}
+    (hsp : decodeG ext d' bs = .ok (v, [])) (hn : v.Within D) :
+    decodeG ext D bs = .ok (v, []) ∧ nextValueSize bs D = .ok bs.length ∧
+    sliceLoop ext D D bs = ([v], .ok) ∧ readerLoop ext D bs = ([v], .ok) := by
+  have hdec := decode_depth_irrelevant ext d' D bs v [] hsp hn
+  have hsz := extentAt ext D D (Nat.le_refl _) hD _ _ _ hdec
+  have hr : readerLoop ext D bs = ([v], .ok) := by
+    rw [readerLoop_ok ext D hdec, readerLoop_nil]
+  obtain ⟨a1, a2, _, _⟩ := loops_agree ext D D (Nat.le_refl _) hD bs
+  refine ⟨hdec, by simpa using hsz, ?_, hr⟩
+  rw [hr] at a1 a2
+  have h2 : (sliceLoop ext D D bs).2 = .ok := a2.mpr rfl
+  calc sliceLoop ext D D bs = ((sliceLoop ext D D bs).1, (sliceLoop ext D D bs).2) := rfl
+    _ = ([v], .ok) := by rw [a1, h2]
+
+/-- If `bs` starts with a spelling of a value that does not nest within `D`,
+then with limit `D` the decoder fails, and so do both loops. -/
+theorem reject_beyond (ext : Bool) (D : Nat) (hD : 1 ≤ D) {bs : List Nat} {v : MVal} {d' : Nat}
+    {rest : List Nat} (hsp : decodeG ext d' bs = .ok (v, rest)) (hn : ¬ v.Within D) :
+    (∃ e, decodeG ext D bs = .error e) ∧
+    (readerLoop ext D bs).2 ≠ .ok ∧ (sliceLoop ext D D bs).2 ≠ .ok ∧
+    (readerLoop ext D bs).1 = [] ∧ (sliceLoop ext D D bs).1 = [] := by
+  have hne : bs ≠ [] := by
+    intro hb; subst hb; unfold decodeG at hsp; cases hsp
+  have hw' := decode_within ext d' _ _ _ hsp
+  have hfail : ∃ e, decodeG ext D bs = .error e := by
+    cases hdec : decodeG ext D bs with
+    | error e => exact ⟨e, rfl⟩
+    | ok p =>
+      obtain ⟨v2, r2⟩ := p
+      exfalso
+      have hw2 := decode_within ext D _ _ _ hdec
+      have hlt : D < d' := by
+        unfold MVal.Within at hn hw'; omega
+      have := decode_depth_irrelevant ext D d' bs v2 r2 hdec (by
+        unfold MVal.Within at hw2 ⊢; omega)
+      rw [hsp] at this
+      injection this with this; injection this with h1 _
+      subst h1
+      exact hn hw2
+  obtain ⟨e, he⟩ := hfail
+  have hr := readerLoop_err ext D hne he
+  obtain ⟨a1, a2, _, _⟩ := loops_agree ext D D (Nat.le_refl _) hD bs
+  rw [hr] at a1 a2
+  refine ⟨⟨e, he⟩, by rw [hr]; simp, ?_, by rw [hr], a1⟩
+  intro hs
+  have := a2.mp hs
+  cases this
+
+/-! ## Nesting shapes -/
+
+/-- Width of a collection header. -/
+inductive Width where
+  | fix | w16 | w32
+  deriving DecidableEq, Repr
+
+/-- Header of a one-element array. -/
+def Width.arr1 : Width → List Nat
+  | .fix => [0x91] | .w16 => [0xdc, 0, 1] | .w32 => [0xdd, 0, 0, 0, 1]
+
+/-- Header of a one-entry map. -/
+def Width.map1 : Width → List Nat
+  | .fix => [0x81] | .w16 => [0xde, 0, 1] | .w32 => [0xdf, 0, 0, 0, 1]
+
+/-- One level of nesting around an inner value: a one-element array, a map
+with the inner value in value position, or a map with the inner value in *key*
+position; the header in any of its three widths; the other half of the map
+entry any flat value. -/
+inductive Wrap where
+  | arr (w : Width)
+  | mapVal (w : Width) (key : MVal)
+  | mapKey (w : Width) (val : MVal)
+
+def Wrap.Ok (ext : Bool) : Wrap → Prop
+  | .arr _ => True
+  | .mapVal _ k => k.WF ext ∧ k.nesting = 0
+  | .mapKey _ v => v.WF ext ∧ v.nesting = 0
+
+def Wrap.bytes : Wrap → List Nat → List Nat
+  | .arr w, inner => w.arr1 ++ inner
+  | .mapVal w k, inner => w.map1 ++ (encode k ++ inner)
+  | .mapKey w v, inner => w.map1 ++ (inner ++ encode v)
+
+def Wrap.val : Wrap → MVal → MVal
+  | .arr _, x => .arr [x]
+  | .mapVal _ k, x => .map [(k, x)]
+  | .mapKey _ v, x => .map [(x, v)]
+
+/-- `ws[0]( ws[1]( … core … ))`. -/
+def nestBytes (ws : List Wrap) (core : List Nat) : List Nat := ws.foldr Wrap.bytes core
+def nestVal (ws : List Wrap) (core : MVal) : MVal := ws.foldr Wrap.val core
+
+theorem hdrOf_arr1 (w : Width) (t : List Nat) : hdrOf (w.arr1 ++ t) = .ok (.arr 1, t) := by
+  cases w <;>
+    simp [Width.arr1, hdrOf, header, layout, Marker.ofByte, readN, beNat, mkHdr]
+
+theorem hdrOf_map1 (w : Width) (t : List Nat) : hdrOf (w.map1 ++ t) = .ok (.map 1, t) := by
+  cases w <;>
+    simp [Width.map1, hdrOf, header, layout, Marker.ofByte, readN, beNat, mkHdr]
+
+theorem nesting_nestVal (ext : Bool) (ws : List Wrap) (hws : ∀ w ∈ ws, w.Ok ext) (cv : MVal) :
+    (nestVal ws cv).nesting = ws.length + cv.nesting := by
+  induction ws with
+  | nil => simp [nestVal]
+  | cons w ws ih =>
+    have ih' := ih (fun w hw => hws w (by simp [hw]))
+    have hw := hws w (by simp)
+    simp only [nestVal, List.foldr_cons] at ih' ⊢
+    cases w with
+    | arr _ =>
+      simp only [Wrap.val, MVal.nesting, nestingList, ih', List.length_cons]; omega
+    | mapVal _ k =>
+      simp only [Wrap.Ok] at hw
+      simp only [Wrap.val, MVal.nesting, nestingPairs, ih', List.length_cons, hw.2]; omega
+    | mapKey _ v =>
+      simp only [Wrap.Ok] at hw
+      simp only [Wrap.val, MVal.nesting, nestingPairs, ih', List.length_cons, hw.2]; omega
+
+/-- Every nesting shape is a spelling of the nested value: it decodes, under
+a large enough counter, to `nestVal ws cv`. -/
+theorem nest_spells (ext : Bool) (ws : List Wrap) (hws : ∀ w ∈ ws, w.Ok ext)
+    (core : List Nat) (cv : MVal) (k : Nat) (hk : 1 ≤ k)
+    (hcore : ∀ d r, k ≤ d → decodeG ext d (core ++ r) = .ok (cv, r)) :
+    ∀ r, decodeG ext (ws.length + k) (nestBytes ws core ++ r) = .ok (nestVal ws cv, r) := by
+  induction ws with
+  | nil => intro r; simpa [nestBytes, nestVal] using hcore k r (Nat.le_refl _)
+  | cons w ws ih =>
+    intro r
+    have ih' := ih (fun w hw => hws w (by simp [hw]))
+    have hw := hws w (by simp)
+    have hd : ws.length + k ≠ 0 := by omega
+    have e : (w :: ws).length + k = (ws.length + k) + 1 := by simp only [List.length_cons]; omega
+    rw [e]
+    simp only [nestBytes, nestVal, List.foldr_cons] at ih' ⊢
+    cases w with
+    | arr wd =>
+      simp only [Wrap.bytes, Wrap.val, List.append_assoc]
+      rw [decodeG_arr ext _ hd (hdrOf_arr1 wd _)]
+      simp only [seqWith, ih' r]
+    | mapVal wd key =>
+      simp only [Wrap.Ok] at hw
+      simp only [Wrap.bytes, Wrap.val, List.append_assoc]
+      rw [decodeG_map ext _ hd (hdrOf_map1 wd _)]
+      have hk1 := roundtrip_val ext key (ws.length + k) (List.foldr Wrap.bytes core ws ++ r) hw.1
+        (by have := hw.2; omega)
+      simp only [pairsWith, hk1, ih' r]
+    | mapKey wd val =>
+      simp only [Wrap.Ok] at hw
+      simp only [Wrap.bytes, Wrap.val, List.append_assoc]
+      rw [decodeG_map ext _ hd (hdrOf_map1 wd _)]
+      have hv1 := roundtrip_val ext val (ws.length + k) r hw.1 (by have := hw.2; omega)
+      simp only [pairsWith, ih' (encode val ++ r), hv1]
+
 end Xt.Msgpack
